@@ -309,7 +309,8 @@ theorem compile_ok_valid {v : Variant} {b : Builder} {dl tl n : Nat} {limit : Op
 
 theorem resolve_frame {b b' : Builder} {n : Nat} (h : resolve b = .ok (b', n)) :
     b'.conn = b.conn ∧ b'.maxLeft = b.maxLeft ∧ b'.maxRight = b.maxRight ∧ b'.base = b.base ∧
-    b'.lex.pos = b.lex.pos ∧ b'.lex.unresolved = b.lex.unresolved ∧ b'.resolved = true := by
+    b'.lex.pos = b.lex.pos ∧ b'.lex.unresolved = b.lex.unresolved ∧ b'.resolved = true ∧
+    b'.connLine = b.connLine := by
   unfold resolve at h
   split at h
   · injection h with h; injection h with h1 h2; subst h1; simp
@@ -328,7 +329,8 @@ theorem toExcept_ok {α : Type} {s : Stage} {r : Res α} {a : α} : r.toExcept s
 
 theorem readLex_frame {v : Variant} {x : Ext} {b b' : Builder} {recs : List (Nat × List Str)} {ce : Option Nat}
     (h : readLex v x b recs ce = .ok b') :
-    b'.conn = b.conn ∧ b'.maxLeft = b.maxLeft ∧ b'.maxRight = b.maxRight ∧ b'.base = b.base := by
+    b'.conn = b.conn ∧ b'.maxLeft = b.maxLeft ∧ b'.maxRight = b.maxRight ∧ b'.base = b.base ∧
+    b'.connLine = b.connLine := by
   unfold readLex at h
   split at h
   · split at h
@@ -337,16 +339,103 @@ theorem readLex_frame {v : Variant} {x : Ext} {b b' : Builder} {recs : List (Nat
   · simp at h
   · simp at h
 
+/-! ### `read_conn` -/
+
+theorem syncSizes_frame (v : Variant) (b : Builder) :
+    (syncSizes v b).conn = b.conn ∧ (syncSizes v b).base = b.base ∧ (syncSizes v b).lex = b.lex ∧
+    (syncSizes v b).resolved = b.resolved ∧ (syncSizes v b).connLine = b.connLine := by
+  unfold syncSizes; split <;> simp
+
+/-- the builder after `read_conn`: the buffer is what `ConnBuffer::read` left, the sizes are
+synchronised with it or left alone -/
+theorem readConnB_eq (v : Variant) (b : Builder) (lines : List (Option Str)) :
+    (readConnB v b lines).2 = (readConn v ⟨b.conn, b.connLine⟩ lines).2 ∧
+    ((readConnB v b lines).1 =
+        syncSizes v { b with conn := (readConn v ⟨b.conn, b.connLine⟩ lines).1.conn,
+                             connLine := (readConn v ⟨b.conn, b.connLine⟩ lines).1.line } ∨
+     ((readConnB v b lines).2 ≠ .ok () ∧ v.s6 = false ∧
+      (readConnB v b lines).1 =
+        { b with conn := (readConn v ⟨b.conn, b.connLine⟩ lines).1.conn,
+                 connLine := (readConn v ⟨b.conn, b.connLine⟩ lines).1.line })) := by
+  unfold readConnB
+  cases hr : readConn v ⟨b.conn, b.connLine⟩ lines with
+  | mk buf r =>
+    cases r with
+    | ok u => cases u; exact ⟨rfl, Or.inl rfl⟩
+    | err k l =>
+      refine ⟨rfl, ?_⟩
+      cases h6 : v.s6 with
+      | true => left; simp
+      | false => right; exact ⟨by simp, rfl, by simp⟩
+    | panic w =>
+      refine ⟨rfl, ?_⟩
+      cases h6 : v.s6 with
+      | true => left; simp
+      | false => right; exact ⟨by simp, rfl, by simp⟩
+
+theorem readConnB_frame (v : Variant) (b : Builder) (lines : List (Option Str)) :
+    (readConnB v b lines).1.base = b.base ∧ (readConnB v b lines).1.lex = b.lex ∧
+    (readConnB v b lines).1.resolved = b.resolved := by
+  rcases (readConnB_eq v b lines).2 with h | ⟨_, _, h⟩
+  · rw [h]
+    obtain ⟨_, f2, f3, f4, _⟩ := syncSizes_frame v
+      { b with conn := (readConn v ⟨b.conn, b.connLine⟩ lines).1.conn,
+               connLine := (readConn v ⟨b.conn, b.connLine⟩ lines).1.line }
+    exact ⟨f2, f3, f4⟩
+  · rw [h]; exact ⟨rfl, rfl, rfl⟩
+
+/-- the ids are validated against the sizes of the matrix that is written -/
+def Sized (b : Builder) : Prop := b.maxLeft = b.conn.nl ∧ b.maxRight = b.conn.nr
+
+theorem syncSizes_sized {v : Variant} {b : Builder} (h : v.n3 = false ∨ b.base.isUser = false) :
+    Sized (syncSizes v b) := by
+  unfold syncSizes
+  rcases h with h | h <;> simp [h, Sized]
+
+theorem syncSizes_keeps {v : Variant} {b : Builder} (h3 : v.n3 = true) (hu : b.base.isUser = true) :
+    syncSizes v b = b := by
+  unfold syncSizes; simp [h3, hu]
+
+/-- a `read_conn` that succeeded — or, after the repair S6, any `read_conn` — leaves the sizes of
+a builder equal to those of the matrix buffer (for a user builder: as the code stands) -/
+theorem readConnB_sized {v : Variant} {b : Builder} {lines : List (Option Str)}
+    (hsys : v.n3 = false ∨ b.base.isUser = false)
+    (hok : (readConnB v b lines).2 = .ok () ∨ v.s6 = true) : Sized (readConnB v b lines).1 := by
+  rcases (readConnB_eq v b lines).2 with h | ⟨hne, h6, _⟩
+  · rw [h]; exact syncSizes_sized hsys
+  · rcases hok with hok | hok
+    · exact absurd hok hne
+    · rw [h6] at hok; cases hok
+
+/-- after the repair N3 a user builder keeps the sizes of the system dictionary's matrix -/
+theorem readConnB_user_keeps {v : Variant} {b : Builder} {lines : List (Option Str)}
+    (h3 : v.n3 = true) (hu : b.base.isUser = true) :
+    (readConnB v b lines).1.maxLeft = b.maxLeft ∧ (readConnB v b lines).1.maxRight = b.maxRight := by
+  rcases (readConnB_eq v b lines).2 with h | ⟨_, _, h⟩
+  · rw [h]; unfold syncSizes; simp [h3, hu]
+  · rw [h]; exact ⟨rfl, rfl⟩
+
 theorem runOp_conn {v : Variant} {x : Ext} {s s' : Builder × Nat} {lines : List (Option Str)}
     (h : runOp v x s (.conn lines) = .ok s') :
-    ∃ c, readConn v lines = .ok c ∧ s' = (setConn s.1 c, s.2) := by
+    (readConnB v s.1 lines).2 = .ok () ∧ s' = ((readConnB v s.1 lines).1, s.2) := by
   simp only [runOp] at h
-  cases hc : readConn v lines with
-  | err k l => simp [hc, Res.toExcept] at h
-  | panic w => simp [hc, Res.toExcept] at h
-  | ok c =>
-    simp only [hc, Res.toExcept, Except.ok.injEq] at h
-    exact ⟨c, rfl, h.symm⟩
+  cases hc : readConnB v s.1 lines with
+  | mk b r =>
+    cases r with
+    | ok u => cases u; simp only [hc, Except.ok.injEq] at h; exact ⟨rfl, h.symm⟩
+    | err k l => simp [hc] at h
+    | panic w => simp [hc] at h
+
+theorem runOp_connIgn {v : Variant} {x : Ext} {s s' : Builder × Nat} {lines : List (Option Str)}
+    (h : runOp v x s (.connIgn lines) = .ok s') :
+    (∀ w, (readConnB v s.1 lines).2 ≠ .panic w) ∧ s' = ((readConnB v s.1 lines).1, s.2) := by
+  simp only [runOp] at h
+  cases hc : readConnB v s.1 lines with
+  | mk b r =>
+    cases r with
+    | ok u => simp only [hc, Except.ok.injEq] at h; exact ⟨fun w => by simp, h.symm⟩
+    | err k l => simp only [hc, Except.ok.injEq] at h; exact ⟨fun w => by simp, h.symm⟩
+    | panic w => simp [hc] at h
 
 theorem runOp_lex {v : Variant} {x : Ext} {s s' : Builder × Nat} {recs : List (Nat × List Str)} {ce : Option Nat}
     (h : runOp v x s (.lex recs ce) = .ok s') :
@@ -379,28 +468,48 @@ theorem runOps_cons {v : Variant} {x : Ext} {s s'' : Builder × Nat} {op : Op} {
   | error f => simp [ho] at h
   | ok s' => simp only [ho] at h; exact ⟨s', rfl, h⟩
 
-/-- the ids are validated against the sizes of the matrix that is written -/
-def Sized (b : Builder) : Prop := b.maxLeft = b.conn.nl ∧ b.maxRight = b.conn.nr
+theorem runOps_append {v : Variant} {x : Ext} {s s'' : Builder × Nat} {ops1 ops2 : List Op}
+    (h : runOps v x s (ops1 ++ ops2) = .ok s'') :
+    ∃ s', runOps v x s ops1 = .ok s' ∧ runOps v x s' ops2 = .ok s'' := by
+  induction ops1 generalizing s with
+  | nil => exact ⟨s, rfl, h⟩
+  | cons op ops ih =>
+    obtain ⟨s1, h1, h2⟩ := runOps_cons (ops := ops ++ ops2) h
+    obtain ⟨s', h3, h4⟩ := ih h2
+    refine ⟨s', ?_, h4⟩
+    simp only [runOps, h1]; exact h3
 
-/-- no matrix was read: the matrix is the empty one, the sizes are those the builder started with -/
-def Untouched (b : Builder) : Prop :=
-  b.conn = Conn.empty ∧ b.maxLeft = b.base.maxLeft ∧ b.maxRight = b.base.maxRight
+/-- no matrix was read: the matrix buffer is the empty one -/
+def Untouched (b : Builder) : Prop := b.conn = Conn.empty ∧ b.connLine = []
 
+/-- `read_conn(..)?` -/
 def Op.isConn : Op → Bool
   | .conn _ => true
+  | _ => false
+
+/-- `let _ = read_conn(..)` -/
+def Op.isConnIgn : Op → Bool
+  | .connIgn _ => true
   | _ => false
 
 theorem runOp_base {v : Variant} {x : Ext} {s s' : Builder × Nat} {op : Op} (h : runOp v x s op = .ok s') :
     s'.1.base = s.1.base := by
   cases op with
-  | conn lines => obtain ⟨c, _, rfl⟩ := runOp_conn h; rfl
-  | lex recs ce => obtain ⟨b, hb, rfl⟩ := runOp_lex h; exact (readLex_frame hb).2.2.2
+  | conn lines => obtain ⟨_, rfl⟩ := runOp_conn h; exact (readConnB_frame ..).1
+  | connIgn lines => obtain ⟨_, rfl⟩ := runOp_connIgn h; exact (readConnB_frame ..).1
+  | lex recs ce => obtain ⟨b, hb, rfl⟩ := runOp_lex h; exact (readLex_frame hb).2.2.2.1
   | resolve => obtain ⟨b, n, hb, rfl⟩ := runOp_resolve h; exact (resolve_frame hb).2.2.2.1
 
 theorem runOp_sized {v : Variant} {x : Ext} {s s' : Builder × Nat} {op : Op} (h : runOp v x s op = .ok s')
+    (hsys : v.n3 = false ∨ s.1.base.isUser = false) (hign : v.s6 = true ∨ op.isConnIgn = false)
     (hs : op.isConn = true ∨ Sized s.1) : Sized s'.1 := by
   cases op with
-  | conn lines => obtain ⟨c, _, rfl⟩ := runOp_conn h; exact ⟨rfl, rfl⟩
+  | conn lines => obtain ⟨hok, rfl⟩ := runOp_conn h; exact readConnB_sized hsys (Or.inl hok)
+  | connIgn lines =>
+    obtain ⟨_, rfl⟩ := runOp_connIgn h
+    rcases hign with h6 | h6
+    · exact readConnB_sized hsys (Or.inr h6)
+    · cases h6
   | lex recs ce =>
     obtain ⟨b, hb, rfl⟩ := runOp_lex h
     obtain ⟨f1, f2, f3, _⟩ := readLex_frame hb
@@ -414,18 +523,46 @@ theorem runOp_sized {v : Variant} {x : Ext} {s s' : Builder × Nat} {op : Op} (h
     · cases hs
     · unfold Sized at hs ⊢; simp only [f1, f2, f3]; exact hs
 
-theorem runOp_untouched {v : Variant} {x : Ext} {s s' : Builder × Nat} {op : Op} (h : runOp v x s op = .ok s')
-    (hop : op.isConn = false) (hs : Untouched s.1) : Untouched s'.1 := by
+/-- the sizes ids are validated against stay what they are: no `read_conn` at all, or — after the
+repair N3 — a user-dictionary builder -/
+theorem runOp_keeps {v : Variant} {x : Ext} {s s' : Builder × Nat} {op : Op} (h : runOp v x s op = .ok s')
+    (hop : (v.n3 = true ∧ s.1.base.isUser = true) ∨ (op.isConn = false ∧ op.isConnIgn = false)) :
+    s'.1.maxLeft = s.1.maxLeft ∧ s'.1.maxRight = s.1.maxRight := by
   cases op with
-  | conn lines => cases hop
+  | conn lines =>
+    obtain ⟨_, rfl⟩ := runOp_conn h
+    rcases hop with ⟨h3, hu⟩ | ⟨hc, _⟩
+    · exact readConnB_user_keeps h3 hu
+    · cases hc
+  | connIgn lines =>
+    obtain ⟨_, rfl⟩ := runOp_connIgn h
+    rcases hop with ⟨h3, hu⟩ | ⟨_, hc⟩
+    · exact readConnB_user_keeps h3 hu
+    · cases hc
   | lex recs ce =>
     obtain ⟨b, hb, rfl⟩ := runOp_lex h
-    obtain ⟨f1, f2, f3, f4⟩ := readLex_frame hb
-    unfold Untouched at hs ⊢; simp only [f1, f2, f3, f4]; exact hs
+    obtain ⟨_, f2, f3, _⟩ := readLex_frame hb
+    exact ⟨f2, f3⟩
   | resolve =>
     obtain ⟨b, n, hb, rfl⟩ := runOp_resolve h
-    obtain ⟨f1, f2, f3, f4, _⟩ := resolve_frame hb
-    unfold Untouched at hs ⊢; simp only [f1, f2, f3, f4]; exact hs
+    obtain ⟨_, f2, f3, _⟩ := resolve_frame hb
+    exact ⟨f2, f3⟩
+
+/-- calls other than `read_conn` leave the matrix buffer alone -/
+theorem runOp_buf {v : Variant} {x : Ext} {s s' : Builder × Nat} {op : Op} (h : runOp v x s op = .ok s')
+    (hop : op.isConn = false ∧ op.isConnIgn = false) :
+    s'.1.conn = s.1.conn ∧ s'.1.connLine = s.1.connLine := by
+  cases op with
+  | conn lines => cases hop.1
+  | connIgn lines => cases hop.2
+  | lex recs ce =>
+    obtain ⟨b, hb, rfl⟩ := runOp_lex h
+    obtain ⟨f1, _, _, _, f5⟩ := readLex_frame hb
+    exact ⟨f1, f5⟩
+  | resolve =>
+    obtain ⟨b, n, hb, rfl⟩ := runOp_resolve h
+    obtain ⟨f1, _, _, _, _, _, _, f8⟩ := resolve_frame hb
+    exact ⟨f1, f8⟩
 
 theorem runOps_base {v : Variant} {x : Ext} {s s' : Builder × Nat} {ops : List Op}
     (h : runOps v x s ops = .ok s') : s'.1.base = s.1.base := by
@@ -436,9 +573,13 @@ theorem runOps_base {v : Variant} {x : Ext} {s s' : Builder × Nat} {ops : List 
     rw [ih h2, runOp_base h1]
 
 /-- once a matrix was read (or if the builder started that way) the sizes are those of the
-matrix: every later `read_conn` replaces both together -/
+matrix: every later `read_conn` replaces both together.  Needs: the builder is not a user builder
+with the repair N3 (there the sizes are those of the system matrix on purpose), and no `Err` of a
+`read_conn` was ignored unless S6 is repaired. -/
 theorem runOps_sized {v : Variant} {x : Ext} {s s' : Builder × Nat} {ops : List Op}
-    (h : runOps v x s ops = .ok s') (hs : (∃ op ∈ ops, op.isConn = true) ∨ Sized s.1) : Sized s'.1 := by
+    (h : runOps v x s ops = .ok s') (hsys : v.n3 = false ∨ s.1.base.isUser = false)
+    (hign : v.s6 = true ∨ ∀ op ∈ ops, op.isConnIgn = false)
+    (hs : (∃ op ∈ ops, op.isConn = true) ∨ Sized s.1) : Sized s'.1 := by
   induction ops generalizing s with
   | nil =>
     simp only [runOps, Except.ok.injEq] at h; subst h
@@ -447,46 +588,229 @@ theorem runOps_sized {v : Variant} {x : Ext} {s s' : Builder × Nat} {ops : List
     · exact hs
   | cons op ops ih =>
     obtain ⟨s1, h1, h2⟩ := runOps_cons h
+    have hsys1 : v.n3 = false ∨ s1.1.base.isUser = false := by rw [runOp_base h1]; exact hsys
+    have hign1 : v.s6 = true ∨ ∀ op ∈ ops, op.isConnIgn = false :=
+      hign.imp id (fun hh op' hm => hh op' (List.mem_cons_of_mem _ hm))
+    have hign0 : v.s6 = true ∨ op.isConnIgn = false := hign.imp id (fun hh => hh op List.mem_cons_self)
     cases hc : op.isConn with
-    | true => exact ih h2 (Or.inr (runOp_sized h1 (Or.inl hc)))
+    | true => exact ih h2 hsys1 hign1 (Or.inr (runOp_sized h1 hsys hign0 (Or.inl hc)))
     | false =>
       rcases hs with ⟨op', hm, hop'⟩ | hs
       · rcases List.mem_cons.1 hm with rfl | hm'
         · rw [hc] at hop'; cases hop'
-        · exact ih h2 (Or.inl ⟨op', hm', hop'⟩)
-      · exact ih h2 (Or.inr (runOp_sized h1 (Or.inr hs)))
+        · exact ih h2 hsys1 hign1 (Or.inl ⟨op', hm', hop'⟩)
+      · exact ih h2 hsys1 hign1 (Or.inr (runOp_sized h1 hsys hign0 (Or.inr hs)))
 
-theorem runOps_untouched {v : Variant} {x : Ext} {s s' : Builder × Nat} {ops : List Op}
-    (h : runOps v x s ops = .ok s') (hops : ∀ op ∈ ops, op.isConn = false) (hs : Untouched s.1) :
-    Untouched s'.1 := by
+theorem runOps_keeps {v : Variant} {x : Ext} {s s' : Builder × Nat} {ops : List Op}
+    (h : runOps v x s ops = .ok s')
+    (hops : (v.n3 = true ∧ s.1.base.isUser = true) ∨ ∀ op ∈ ops, op.isConn = false ∧ op.isConnIgn = false) :
+    s'.1.maxLeft = s.1.maxLeft ∧ s'.1.maxRight = s.1.maxRight := by
   induction ops generalizing s with
-  | nil => simp only [runOps, Except.ok.injEq] at h; subst h; exact hs
+  | nil => simp only [runOps, Except.ok.injEq] at h; subst h; exact ⟨rfl, rfl⟩
   | cons op ops ih =>
     obtain ⟨s1, h1, h2⟩ := runOps_cons h
-    exact ih h2 (fun op' hm => hops op' (List.mem_cons_of_mem _ hm))
-      (runOp_untouched h1 (hops op List.mem_cons_self) hs)
+    have k1 := runOp_keeps h1 (hops.imp id (fun hh => hh op List.mem_cons_self))
+    have k2 := ih h2 (by
+      rcases hops with ⟨h3, hu⟩ | hh
+      · left; rw [runOp_base h1]; exact ⟨h3, hu⟩
+      · right; exact fun op' hm => hh op' (List.mem_cons_of_mem _ hm))
+    exact ⟨k2.1.trans k1.1, k2.2.trans k1.2⟩
 
-/-- the builder `prepare` hands to `compile`: the matrix that was read last and the sizes the ids
-are validated against -/
+theorem runOps_buf {v : Variant} {x : Ext} {s s' : Builder × Nat} {ops : List Op}
+    (h : runOps v x s ops = .ok s') (hops : ∀ op ∈ ops, op.isConn = false ∧ op.isConnIgn = false) :
+    s'.1.conn = s.1.conn ∧ s'.1.connLine = s.1.connLine := by
+  induction ops generalizing s with
+  | nil => simp only [runOps, Except.ok.injEq] at h; subst h; exact ⟨rfl, rfl⟩
+  | cons op ops ih =>
+    obtain ⟨s1, h1, h2⟩ := runOps_cons h
+    have k1 := runOp_buf h1 (hops op List.mem_cons_self)
+    have k2 := ih h2 (fun op' hm => hops op' (List.mem_cons_of_mem _ hm))
+    exact ⟨k2.1.trans k1.1, k2.2.trans k1.2⟩
+
+theorem init_sized {v : Variant} {base : Base} (h1 : v.n1 = true) (hu : base.isUser = false) :
+    Sized (Builder.init v base) := by
+  simp [Sized, Builder.init, Base.initLeft, Base.initRight, hu, h1, Conn.empty]
+
+theorem noConn_of_not_mem {ops : List Op}
+    (hn : ∀ lines, Op.conn lines ∉ ops ∧ Op.connIgn lines ∉ ops) :
+    ∀ op ∈ ops, op.isConn = false ∧ op.isConnIgn = false := by
+  intro op hm
+  cases op with
+  | conn lines => exact absurd hm (hn lines).1
+  | connIgn lines => exact absurd hm (hn lines).2
+  | lex recs ce => exact ⟨rfl, rfl⟩
+  | resolve => exact ⟨rfl, rfl⟩
+
+theorem noIgn_of_not_mem {ops : List Op} (hn : ∀ lines, Op.connIgn lines ∉ ops) :
+    ∀ op ∈ ops, op.isConnIgn = false := by
+  intro op hm
+  cases op with
+  | connIgn lines => exact absurd hm (hn lines)
+  | conn lines => rfl
+  | lex recs ce => rfl
+  | resolve => rfl
+
+/-- the builder `prepare` hands to `compile`: the sizes the ids are validated against.
+(1) those of the matrix that is written, when a matrix was read or — after the repair N1 — from
+the start, for every builder that is not a user builder with the repair N3, provided no `Err` of a
+`read_conn` was ignored (or S6 is repaired);
+(2) those the builder started with, when no `read_conn` was made or — after the repair N3 — for a
+user builder; (3) without any `read_conn` the matrix buffer is untouched. -/
 theorem prepare_conn {v : Variant} {x : Ext} {inp : Input} {b : Builder} {cnt : Nat}
     (h : prepare v x inp = .ok (b, cnt)) :
     b.base = inp.base ∧
-    ((∃ lines, Op.conn lines ∈ inp.ops) → b.maxLeft = b.conn.nl ∧ b.maxRight = b.conn.nr) ∧
-    ((∀ lines, Op.conn lines ∉ inp.ops) →
-      b.conn = Conn.empty ∧ b.maxLeft = inp.base.maxLeft ∧ b.maxRight = inp.base.maxRight) := by
+    ((v.n3 = false ∨ inp.base.isUser = false) → (v.s6 = true ∨ ∀ lines, Op.connIgn lines ∉ inp.ops) →
+      ((v.n1 = true ∧ inp.base.isUser = false) ∨ ∃ lines, Op.conn lines ∈ inp.ops) →
+      b.maxLeft = b.conn.nl ∧ b.maxRight = b.conn.nr) ∧
+    (((v.n3 = true ∧ inp.base.isUser = true) ∨ ∀ lines, Op.conn lines ∉ inp.ops ∧ Op.connIgn lines ∉ inp.ops) →
+      b.maxLeft = inp.base.initLeft v ∧ b.maxRight = inp.base.initRight v) ∧
+    ((∀ lines, Op.conn lines ∉ inp.ops ∧ Op.connIgn lines ∉ inp.ops) → b.conn = Conn.empty) := by
   unfold prepare at h
   have hb := runOps_base h
-  refine ⟨hb, ?_, ?_⟩
-  · rintro ⟨lines, hl⟩
-    exact runOps_sized h (Or.inl ⟨_, hl, rfl⟩)
+  refine ⟨hb, ?_, ?_, ?_⟩
+  · intro hsys hign hc
+    refine runOps_sized h hsys (hign.imp id noIgn_of_not_mem) ?_
+    rcases hc with ⟨h1, hu⟩ | ⟨lines, hl⟩
+    · exact Or.inr (init_sized h1 hu)
+    · exact Or.inl ⟨_, hl, rfl⟩
+  · intro hk
+    exact runOps_keeps h (hk.imp id noConn_of_not_mem)
   · intro hn
-    have hu := runOps_untouched h (fun op hm => by
-      cases op with
-      | conn lines => exact absurd hm (hn lines)
-      | lex recs ce => rfl
-      | resolve => rfl) ⟨rfl, rfl, rfl⟩
-    unfold Untouched at hu
-    rw [hb] at hu
-    exact hu
+    exact (runOps_buf h (noConn_of_not_mem hn)).1
+
+/-! ### the content of the matrix buffer -/
+
+/-- the result of the body loop and the line it leaves behind do not depend on the content of the
+buffer; the content is the writes of this text on top of what was there -/
+theorem readBody_cells (v : Variant) (c : Conn) (ls : List (Option Str)) (n : Nat) (cells : List (Nat × Int)) :
+    (readBody v c ls n cells).2 = (readBody v c ls n []).2 ∧
+    (readBody v c ls n cells).1.2 = (readBody v c ls n []).1.2 ∧
+    (readBody v c ls n cells).1.1 = (readBody v c ls n []).1.1 ++ cells := by
+  induction ls generalizing n cells with
+  | nil => simp [readBody]
+  | cons l ls ih =>
+    cases l with
+    | none => simp [readBody]
+    | some l =>
+      unfold readBody
+      split
+      · exact ih _ _
+      · cases hp : (parseLine v c l).atLine (n + 1) with
+        | ok w =>
+          simp only []
+          obtain ⟨a1, a2, a3⟩ := ih (n + 1) (w :: cells)
+          obtain ⟨b1, b2, b3⟩ := ih (n + 1) [w]
+          refine ⟨a1.trans b1.symm, a2.trans b2.symm, ?_⟩
+          rw [a3, b3]; simp
+        | err k ln => simp
+        | panic w => simp
+
+/-- S5 repaired: whether `read_conn` accepts a text, with which error it rejects it, the size of
+the matrix and the line left behind do not depend on what earlier calls left in the buffer -/
+theorem readConn_result_fresh {v : Variant} (h5 : v.s5 = true) (buf : ConnBuf) (lines : List (Option Str)) :
+    (readConn v buf lines).2 = (readConn v ConnBuf.new lines).2 ∧
+    (readConn v buf lines).1.line = (readConn v ConnBuf.new lines).1.line ∧
+    ((readConn v buf lines).2 = .ok () →
+      (readConn v buf lines).1.conn.nl = (readConn v ConnBuf.new lines).1.conn.nl ∧
+      (readConn v buf lines).1.conn.nr = (readConn v ConnBuf.new lines).1.conn.nr ∧
+      (readConn v buf lines).1.conn.bytes = (readConn v ConnBuf.new lines).1.conn.bytes) := by
+  unfold readConn
+  simp only [h5, ↓reduceIte]
+  cases hh : readHead v lines [] 0 with
+  | mk hd r =>
+    cases r with
+    | err k l => simp
+    | panic w => simp
+    | ok p =>
+      obtain ⟨n, rest⟩ := p
+      simp only []
+      cases hp : parseHeader hd with
+      | error e => simp
+      | ok q =>
+        obtain ⟨l, r⟩ := q
+        simp only []
+        split
+        · simp
+        · split
+          · simp
+          · obtain ⟨a1, a2, _⟩ := readBody_cells v ⟨l, r, l.toNat * r.toNat * 2, []⟩ rest n
+              (resizeCells v buf.conn.cells (l.toNat * r.toNat))
+            obtain ⟨b1, b2, _⟩ := readBody_cells v ⟨l, r, l.toNat * r.toNat * 2, []⟩ rest n
+              (resizeCells v ConnBuf.new.conn.cells (l.toNat * r.toNat))
+            exact ⟨a1.trans b1.symm, a2.trans b2.symm, fun _ => ⟨rfl, rfl, rfl⟩⟩
+
+/-- S4 and S5 repaired: `read_conn` is a function of the text it reads — same result as on a new
+buffer, and when it succeeds the same buffer (sizes, every cell, line) -/
+theorem readConn_fresh {v : Variant} (h4 : v.s4 = true) (h5 : v.s5 = true) (buf : ConnBuf) (lines : List (Option Str)) :
+    (readConn v buf lines).2 = (readConn v ConnBuf.new lines).2 ∧
+    ((readConn v buf lines).2 = .ok () → (readConn v buf lines).1 = (readConn v ConnBuf.new lines).1) := by
+  refine ⟨(readConn_result_fresh h5 buf lines).1, ?_⟩
+  unfold readConn
+  simp only [h5, ↓reduceIte, resizeCells, h4]
+  cases hh : readHead v lines [] 0 with
+  | mk hd r =>
+    cases r with
+    | err k l => simp
+    | panic w => simp
+    | ok p =>
+      obtain ⟨n, rest⟩ := p
+      simp only []
+      cases hp : parseHeader hd with
+      | error e => simp
+      | ok q =>
+        obtain ⟨l, r⟩ := q
+        simp only []
+        split
+        · simp
+        · split
+          · simp
+          · intro _; rfl
+
+/-- the matrix `compile` writes is the buffer the LAST `read_conn(..)?` left, when no later call
+touched it -/
+theorem prepare_last_conn {v : Variant} {x : Ext} {inp : Input} {b : Builder} {cnt : Nat}
+    {pre post : List Op} {lines : List (Option Str)}
+    (h : prepare v x inp = .ok (b, cnt)) (hops : inp.ops = pre ++ Op.conn lines :: post)
+    (hpost : ∀ op ∈ post, op.isConn = false ∧ op.isConnIgn = false) :
+    ∃ buf : ConnBuf, (readConn v buf lines).2 = .ok () ∧ b.conn = (readConn v buf lines).1.conn := by
+  unfold prepare at h
+  rw [hops] at h
+  obtain ⟨s1, _, h2⟩ := runOps_append h
+  obtain ⟨s2, h3, h4⟩ := runOps_cons h2
+  obtain ⟨hok, rfl⟩ := runOp_conn h3
+  have hb := (runOps_buf h4 hpost).1
+  simp only at hb
+  refine ⟨⟨s1.1.conn, s1.1.connLine⟩, ?_, ?_⟩
+  · rw [← (readConnB_eq v s1.1 lines).1]; exact hok
+  · rw [hb]
+    rcases (readConnB_eq v s1.1 lines).2 with he | ⟨hne, _, _⟩
+    · rw [he]; exact (syncSizes_frame ..).1
+    · exact absurd hok hne
+
+/-! ### the hypotheses of the id theorems -/
+
+/-- the connection ids are validated against the sizes of the matrix that is written: the builder
+is not a user-dictionary builder with the repair N3 (there they are validated against the system
+matrix, on purpose); no `Err` of a `read_conn` was ignored, or S6 is repaired; and a matrix was
+read, or it is a system-dictionary builder and N1 is repaired -/
+def SizesFollowMatrix (v : Variant) (inp : Input) : Prop :=
+  (v.n3 = false ∨ inp.base.isUser = false) ∧ (v.s6 = true ∨ ∀ lines, Op.connIgn lines ∉ inp.ops) ∧
+  ((v.n1 = true ∧ inp.base.isUser = false) ∨ ∃ lines, Op.conn lines ∈ inp.ops)
+
+/-- the connection ids are validated against the sizes the builder started with (for a user
+dictionary: those of the system dictionary's matrix): no `read_conn` was made, or N3 is repaired
+and the builder is a user-dictionary builder -/
+def SizesStay (v : Variant) (inp : Input) : Prop :=
+  (v.n3 = true ∧ inp.base.isUser = true) ∨ ∀ lines, Op.conn lines ∉ inp.ops ∧ Op.connIgn lines ∉ inp.ops
+
+/-- with N1 and S6 repaired the hypothesis of `compile_valid` holds for every system dictionary -/
+theorem sizesFollow_repaired (v : Variant) (inp : Input) (hn1 : v.n1 = true) (hs6 : v.s6 = true)
+    (hsys : inp.base.isUser = false) : SizesFollowMatrix v inp :=
+  ⟨Or.inr hsys, Or.inl hs6, Or.inl ⟨hn1, hsys⟩⟩
+
+/-- as the code stands it holds when a matrix was read and every `Err` was propagated -/
+theorem sizesFollow_pinned (v : Variant) (inp : Input) (hn3 : v.n3 = false) (lines : List (Option Str))
+    (hconn : Op.conn lines ∈ inp.ops) (hplain : ∀ lines, Op.connIgn lines ∉ inp.ops) : SizesFollowMatrix v inp :=
+  ⟨Or.inl hn3, Or.inr hplain, Or.inr ⟨lines, hconn⟩⟩
 
 end Build
